@@ -112,7 +112,7 @@ class Converter:
             name = m.name
             if name not in MODELLED:
                 raise OutOfModel(f"function {name}")
-            c = m._function_or_equality
+            c = m.children[0] if m.children else None      # the function's one child (public tree structure)
             if c is None:
                 kids = []
             elif isinstance(c, Equality) and c.op == ",":
